@@ -4,6 +4,7 @@
 mod common;
 mod hc;
 mod c06;
+mod c12;
 mod c15;
 mod c19;
 mod zeep;
@@ -14,6 +15,7 @@ fn main() {
     let args: Vec<String> = std::env::args().skip(1).collect();
     let code = match args.as_slice() {
         [cmd, file] if cmd == "replay" => replay(file),
+        [cmd, file] if cmd == "gen-worker" => c12::gen_worker(file),
         [id, tier] => {
             let tier = match tier.as_str() {
                 "quick" => Tier::Quick,
@@ -35,6 +37,7 @@ fn usage() -> ! {
 fn run(id: &str, tier: Tier) -> i32 {
     match id {
         "C06" => c06::run(tier),
+        "C12" => c12::run(tier),
         "C15" => c15::run(tier),
         "C19" => c19::run(tier),
         _ => {
@@ -49,6 +52,7 @@ fn replay(file: &str) -> i32 {
     let v: serde_json::Value = serde_json::from_str(&text).expect("replay file is JSON");
     match v["property"].as_str().unwrap_or("") {
         "C06" => c06::replay(&v["case"]),
+        "C12" => c12::replay(&v["case"]),
         "C15" => c15::replay(&v["case"]),
         "C19" => c19::replay(&v["case"]),
         p => {
